@@ -10,6 +10,11 @@ from vlib import coregen, core, judge, tlc
 NPROCS = int(os.environ.get("VERIF_PROCS", "16"))
 PROPS = ["RunningExact", "RunningCallerOK", "LockedOnlyIfConflictRan", "StatsEqualCounts", "SameLength"]
 OPTS = [dict(p_wit=0.0), dict(p_wit=0.0, max_m=2, max_t=4), dict(p_wit=0.0, p_rel=1.0), dict(p_wit=0.0, sched="rr", nested=False, rdep_rel=False)]
+# extra family (own seed range, so that the designs of the families above never change): conflict paths
+# a - b - c whose ends do not conflict, under the round-robin scheduler: a transaction can be ready and runnable
+# and not run although nothing that conflicts with it runs -- it must not be reported as locked
+XOPT = dict(p_wit=0.0, sched="rr", nested=False, rdep_rel=False, p_chain=1.0, max_t=4, max_m=1, p_rel=0.2)
+XBASE = 50000
 
 
 def make(args):
@@ -48,6 +53,7 @@ def run(rep):
     thorough = rep.tier == "thorough"
     n, cycles = (1200, 300) if thorough else (72, 100)
     tasks = [(rep.seed * 100003 + i, OPTS[i % len(OPTS)], cycles) for i in range(n)]
+    tasks += [(rep.seed * 100003 + XBASE + i, XOPT, cycles) for i in range(n // 4)]
     with mp.Pool(NPROCS) as pool:
         cases = [c for c in pool.map(make, tasks, chunksize=2) if c]
     res, acc, rej, dev = judge.judge("ProfilerTrace", [{k: c[k] for k in ("design", "prof", "stats", "cycles")} for c in cases])
@@ -88,7 +94,7 @@ def replay(rep, path):
     seed = d["cfg"]["seed"]
     i = seed % 100003
     for cycles in (100, 300):
-        c = make((seed, dict(OPTS[i % len(OPTS)]), cycles))
+        c = make((seed, dict(XOPT if i >= XBASE else OPTS[i % len(OPTS)]), cycles))
         if not c:
             continue
         res, acc, rej, dev = judge.judge("ProfilerTrace", [{k: c[k] for k in ("design", "prof", "stats", "cycles")}])
